@@ -6,3 +6,11 @@ import PyxisVerif.Props.C19
 #print axioms PyxisVerif.C19.type_items_local
 #print axioms PyxisVerif.C19.type_items_no_bases
 #print axioms PyxisVerif.C19.module_file_local
+#print axioms PyxisVerif.C19.added_module_frame
+#print axioms PyxisVerif.C19.added_module_frame_tight
+#print axioms PyxisVerif.C19.added_module_core
+#print axioms PyxisVerif.C19.added_module_files
+#print axioms PyxisVerif.C19.added_module_o3
+#print axioms PyxisVerif.C19.added_module_registry
+#print axioms PyxisVerif.C19.Refute.added_module_registry_weak_refuted
+#print axioms PyxisVerif.C19.Example.frame_applies
